@@ -240,26 +240,35 @@ def iters_tie(rep, hbin, seed):
         raise RuntimeError("RobustIterCasesGen.v does not compile: " + c1.stderr[-1500:])
     c2 = vlib.coqc("Tables/RobustIterCasesCheck.v")
     flat = re.sub(r"\s+", " ", c2.stdout)
-    ok = c2.returncode == 0 and "= ([], []) : list (N * list N)" in flat
+    mi = re.search(r"= (\[.*?\]) : list \(N \* list N\)", flat)
+    mt = re.search(r"= (\[.*?\]) : list \(N \* \(N \* N\) \* \(N \* N\)\)", flat[mi.end():]) if mi else None
+    ok = c2.returncode == 0 and bool(mi) and bool(mt) and mi.group(1) == "[]" and mt.group(1) == "[]"
     mc = re.search(r"= \((\d+)%nat, (\d+)%nat, (\d+)%nat, (\d+)%nat\)", flat)
     info = {"iterator_trees": rows[0], "from_miniscript": rows[1], "from_concrete_policy": rows[2], "taproot_shapes": rows[3],
             "tree_nodes": int(mc.group(2)) if mc else 0, "taproot_shapes_rejected_as_too_deep": int(mc.group(4)) if mc else 0,
             "all_equal_inside_coq": ok}
     if not ok:
-        mm = re.search(r"= \((.*)\) : list \(N \* list N\)", flat)
-        body = (mm.group(1) if mm else (c2.stderr or c2.stdout))[-3000:]
-        bad_iter = re.findall(r"\((\d+), \[([0-9; ]*)\]\)", body.split("], [")[0] if "], [" in body else body)
-        what = sorted({ITER_FAIL.get(c.strip(), c.strip()) for _, cs in bad_iter for c in cs.split(";") if c.strip()})
-        # a taproot row on which the IMPLEMENTATION panics (code 2) is a failing input of the property itself
-        impl_panics = re.findall(r"\((\(?T[LB][^,]*(?:\([^)]*\))*[^,]*), \(2, \[\]\)", body)
-        found = bool(re.search(r", \(2, \[\]\), \(", body)) or bool(impl_panics)
-        rep.violation("iters-tie", "the compiled code and the Coq models of iter/tree.rs / TapTreeBuilder disagree: %s%s" % (
-                          ("iterator rows %s differ in: %s; " % ([int(i) for i, _ in bad_iter][:10], ", ".join(what))) if bad_iter else "", body[:1200]),
-                      {"property": "C11", "broken_tie": "Tables/RobustIterCasesCheck.v: iter_mismatches = ([], [])",
-                       "differing (iterator row index, failed comparisons) / (taproot shape, implementation, model)": body,
-                       "failed_comparisons": what,
-                       "note": "taproot rows are (shape, (code, leaf depths)) with code 0 = Err, 1 = Ok, 2 = panic; a row whose implementation code is 2 is an input on which Tr::from_str panics: tr(KI,<shape with pk(Kn) leaves>)",
-                       "replay": "python3 tools/check.py C11"}, found_input=found)
+        names_i = dict((int(a), b) for a, b in re.findall(r"^ITER (\d+) (.*)$", p.stderr, flags=re.M))
+        names_t = dict((int(a), b) for a, b in re.findall(r"^TAP (\d+) (.*)$", p.stderr, flags=re.M))
+        bad_i = [(int(i), [ITER_FAIL.get(c.strip(), c.strip()) for c in cs.split(";") if c.strip()])
+                 for i, cs in re.findall(r"\((\d+), \[([0-9; ]*)\]\)", mi.group(1))] if mi else []
+        bad_t = [tuple(int(x) for x in t) for t in re.findall(r"\((\d+), \((\d+), (\d+)\), \((\d+), (\d+)\)\)", mt.group(1))] if mt else []
+        code = {0: "Err", 1: "Ok", 2: "PANIC"}
+        lines = ["iterator row %d (%s): differs in %s" % (i, names_i.get(i, "?")[:200], ", ".join(f)) for i, f in bad_i[:6]]
+        lines += ["taproot row %d: %s: implementation %s with %d leaves, model %s with %d leaves" % (
+                      i, names_t.get(i, "?")[:160], code.get(ci, ci), ni, code.get(cm, cm), nm) for i, ci, cm, ni, nm in bad_t[:6]]
+        if not (mi and mt):
+            lines.append("RobustIterCasesCheck.v did not evaluate: " + (c2.stderr or c2.stdout)[-600:])
+        # an input on which the IMPLEMENTATION panics is a failing input of the property itself
+        panics = [names_t.get(i, "?") for i, ci, cm, ni, nm in bad_t if ci == 2]
+        rep.violation("iters-tie", "the compiled code and the Coq models of iter/tree.rs / TapTreeBuilder disagree (%d iterator rows, %d taproot rows): %s" % (
+                          len(bad_i), len(bad_t), " | ".join(lines)),
+                      {"property": "C11", "broken_tie": "Tables/RobustIterCasesCheck.v: iter_bad = [] and tap_bad = []",
+                       "differing_iterator_rows": [{"row": i, "input": names_i.get(i, "?"), "failed": f} for i, f in bad_i[:40]],
+                       "differing_taproot_rows": [{"row": i, "descriptor": names_t.get(i, "?"), "implementation": code.get(ci, ci), "model": code.get(cm, cm),
+                                                   "leaves_implementation": ni, "leaves_model": nm} for i, ci, cm, ni, nm in bad_t[:40]],
+                       "implementation_panics_on": panics[:5],
+                       "replay": "python3 tools/check.py C11"}, found_input=bool(panics))
     return ok, info
 
 
